@@ -1,4 +1,6 @@
 import MuscleModel.Wildcard.Ere
+import MuscleModel.Generated.Constants
+import MuscleModel.Generated.WildcardKernels
 
 /-!
 # C15 — mirrors of the C++ code in regex/StringMatcher.cpp
@@ -10,12 +12,14 @@ Every definition names the C++ function it mirrors.  Strings are NUL-free byte l
 namespace Muscle.Wildcard
 open Muscle
 
-/-- mirrors `IsRegexToken(char c, bool isFirstCharInString)` -/
+/-- mirrors `IsRegexToken(char c, bool isFirstCharInString)`: the table is not typed in here, it is regenerated
+    on every run by calling the compiled function for all 256 × 2 arguments (tools/extract_consts.cpp, C15 block) -/
 def isRegexToken (c : UInt8) (first : Bool) : Bool :=
-  if c == cLBr || c == cRBr || c == cStar || c == cQm || c == cBs || c == cComma || c == cBar || c == cLPar
-     || c == cRPar || c == cEq || c == cCaret || c == cPlus || c == cDollar || c == cLBrace || c == cRBrace then true
-  else if c == cLt || c == cTilde then first
-  else false
+  (if first then Gen.regexTokensFirst else Gen.regexTokensRest).contains c.toNat
+
+/-- mirrors `strchr(".[]()*+?{}|^$\\", c) != NULL` in the escape-mode branch of `SetPattern`'s loop: the list is
+    regenerated on every run from the source text (tools/extract_kernels.py) -/
+def keepsBackslash (c : UInt8) : Bool := Gen.setPatternKeepsBackslash.contains c.toNat
 
 /-- mirrors the loop of `EscapeRegexTokens(s, NULL)` (`first` = `isFirst`) -/
 def escapeAux : Bool → Bytes → Bytes
@@ -66,7 +70,7 @@ def canMatchMultiple (s : Bytes) : Bool := (canMatchMultipleAux s).1
     "a backslash in a wildcard pattern makes the next character literal"); first argument = `escapeMode` -/
 def translateLoop : Bool → Bytes → Bytes
   | esc, [] => if esc then [cBs, cBs] else []
-  | true, c :: r => (if ereSpecial c then [cBs, c] else [c]) ++ translateLoop false r
+  | true, c :: r => (if keepsBackslash c then [cBs, c] else [c]) ++ translateLoop false r
   | false, c :: r =>
     if c == cComma then cBar :: translateLoop false r
     else if c == cDot then cBs :: cDot :: translateLoop false r
